@@ -9906,6 +9906,13 @@ tsk_treeseq_pair_coalescence_rates(const tsk_treeseq_t *self, tsk_size_t num_sam
 {
     int ret = 0;
     void *params = (void *) time_windows;
+    /* check_coalescence_rate_time_windows indexes the node times by the sample ids, so
+     * these must be validated first */
+    ret = tsk_treeseq_check_sample_sets(
+        self, num_sample_sets, sample_set_sizes, sample_sets);
+    if (ret != 0) {
+        goto out;
+    }
     ret = check_coalescence_rate_time_windows(self, num_sample_sets, sample_set_sizes,
         sample_sets, num_time_windows, node_time_window, time_windows);
     if (ret != 0) {
